@@ -5,26 +5,34 @@ import Goyang.Model.Pipeline
 import Goyang.Model.TypesLite
 /-
 Property C05, load order: the same sources give the same result whatever the order in which they
-were loaded.  (The open core statement `Props.C05.ProcessLoadOrderIrrelevant`.)
+were loaded.  This file proves the open core statement `Props.C05.ProcessLoadOrderIrrelevant`
+(there only stated) — with the two hypotheses it needs: module names are identifiers (`NamesOk`,
+as in C13) and no two sources define the same (kind, name, revision) (`Distinct`; without it the
+statement is false, `distinct_needed`).
 
 In the resolver model a loaded module is identified by its load sequence number `Mod.seq`
-(tree ids, `nodeMod`, visited sets, caches, pending augments are keyed by it) and
-`Registry.mods` is in load order.  Another load order permutes those numbers.  The proof is a
-simulation through every stage of `processAll` (`Lemmas/LoadOrder*.lean`):
+(tree ids, `nodeMod`, visited sets, caches, pending augments, link sets, the identity dictionary
+and the type-resolution stack are keyed by it) and `Registry.mods` is in load order.  Another load
+order permutes those numbers.  The proof is a simulation through every stage of the pipeline
+(`Lemmas/LoadOrder*.lean`, about 3600 lines, core Lean only):
 
 * `Lemmas.LoadOrder.regRel_of_perm` (on top of C13's registry invariant): two load orders of
   pairwise different modules give registries that hold the same modules under renamed sequence
-  numbers, with every key of both tables bound to corresponding modules (`RegRel σ r₁ r₂`);
+  numbers, every key of both tables bound to corresponding modules (`RegRel σ r₁ r₂`);
 * every registry lookup, `findGrouping`, `toEntry` (with its caches and visited set), `find` /
-  `walkParts`, linking, the augment loop, `FixChoice`, the leftover pass, deviations commute
-  with the renaming `σ` (`toEntry_ren`, `find_ren`, `augmentPhase_rel`, `applyDeviations_ren`,
-  `processAll_rel`); the orders in which `Process` walks the tables are sorted orders over
-  distinct keys / full names and therefore correspond element by element;
+  `walkParts`, linking, the augment loop, `FixChoice`, the leftover pass, deviations commute with
+  the renaming `σ` (`toEntry_ren`, `find_ren`, `augmentPhase_rel`, `applyDeviations_ren`,
+  `processAll_rel`); the orders in which `Process` walks the tables are sorted orders over distinct
+  keys / full names and therefore correspond element by element (`Lemmas/SortUnique`);
+* the layers plugged into `processAll` — `Type.resolve` / `resolveTypedefs` (C09 layer) and
+  `resolveIdentities` (C11 layer, with the oracle the pipeline uses) — do the same
+  (`plugFull_rel`: `resolveTypeF_ren`, `buildDict_ren`, `identityErrsOf_eq`, …);
 * the canonical dump mentions no sequence number (`dumpOutcome_ren`).
 
-The layers plugged into `processAll` (type resolution C09, identity resolution C11, typedef
-resolution) enter as a hypothesis `PlugRel`: on corresponding registries they resolve every type
-statement to the same result and report the same errors.
+The theorems are stated for an arbitrary plug that respects the renaming (`PlugRel`) and then
+instantiated: `process_load_order_irrelevant` (statement lists, `plugFull`),
+`process_files_load_order_irrelevant` (`processFiles` on texts: the statement of
+`ProcessLoadOrderIrrelevant`), `process_load_order_irrelevant_resolver` (placeholder type layer).
 -/
 namespace Goyang.Props.C05Order
 open Goyang.Model Goyang.Lemmas.LoadOrder
@@ -65,11 +73,11 @@ theorem processAll_renaming_invariant {σ : Nat → Nat} {r₁ r₂ : Registry} 
     rw [h4]
   rw [e₂, dumpOutcome_ren h, ← e₁]
 
-/-- **Load order does not matter** (given plugged layers that respect renaming).  Loading pairwise
-different modules in two orders and processing gives the same canonical dump: the same error set,
-or the same trees node by node.  `plug` builds the plugged layers from the registry (as
-`plugFull` does). -/
-theorem process_load_order_irrelevant_partial {loads₁ loads₂ : List Stmt} (hperm : loads₁.Perm loads₂)
+/-- **Load order does not matter**, for any plugged layers that respect the renaming.  Loading
+pairwise different modules in two orders and processing gives the same canonical dump: the same
+error set, or the same trees node by node.  `plug` builds the plugged layers from the registry
+(as `plugFull` does). -/
+theorem process_load_order_irrelevant_of_plug {loads₁ loads₂ : List Stmt} (hperm : loads₁.Perm loads₂)
     (hn : NamesOk loads₁) (hd : Distinct loads₁) (opts : Opts) (plug : Registry → Plug)
     (hplug : ∀ σ, RegRel σ (Registry.loadAll loads₁).1 (Registry.loadAll loads₂).1 →
       PlugRel σ (Registry.loadAll loads₁).1 (Registry.loadAll loads₂).1
@@ -95,7 +103,7 @@ theorem process_load_order_irrelevant_resolver {loads₁ loads₂ : List Stmt} (
     (hn : NamesOk loads₁) (hd : Distinct loads₁) (opts : Opts) :
     dumpOutcome (processAll (Registry.loadAll loads₁).1 opts (plugLite (Registry.loadAll loads₁).1)) =
       dumpOutcome (processAll (Registry.loadAll loads₂).1 opts (plugLite (Registry.loadAll loads₂).1)) :=
-  process_load_order_irrelevant_partial hperm hn hd opts plugLite (fun σ _ => plugLite_rel σ _ _)
+  process_load_order_irrelevant_of_plug hperm hn hd opts plugLite (fun σ _ => plugLite_rel σ _ _)
 
 /-- The layers of the real pipeline (`plugFull`: `Type.resolve` / `resolveTypedefs` of the C09
 layer, `resolveIdentities` of the C11 layer with the insertion-order oracle — every map walk of
@@ -114,7 +122,7 @@ theorem process_load_order_irrelevant {loads₁ loads₂ : List Stmt} (hperm : l
     (hn : NamesOk loads₁) (hd : Distinct loads₁) (opts : Opts) :
     dumpOutcome (processAll (Registry.loadAll loads₁).1 opts (plugFull (Registry.loadAll loads₁).1)) =
       dumpOutcome (processAll (Registry.loadAll loads₂).1 opts (plugFull (Registry.loadAll loads₂).1)) :=
-  process_load_order_irrelevant_partial hperm hn hd opts plugFull (fun _ h => plugFull_rel h)
+  process_load_order_irrelevant_of_plug hperm hn hd opts plugFull (fun _ h => plugFull_rel h)
 
 /-- The statements of all texts, in load order. -/
 def stmtsOf (files : List SrcFile) : List Stmt := files.flatMap (·.stmts)
@@ -177,21 +185,21 @@ def exB : Stmt :=
 
 example : NamesOk [exA, exAs, exB] := by decide
 example : Distinct [exA, exAs, exB] := by decide
-example : [exA, exAs, exB].Perm [exB, exAs, exA] :=
-  (List.Perm.swap exAs exA [exB]).symm.trans ((List.Perm.cons exAs (List.Perm.swap exB exA [])).trans
-    ((List.Perm.swap exB exAs [exA]).symm.trans (List.Perm.refl _))) |>.trans (List.Perm.refl _) |> fun h => by
-      first
-        | exact h
-        | exact (List.reverse_perm [exB, exAs, exA]).symm
+theorem exPerm : [exA, exAs, exB].Perm [exB, exAs, exA] :=
+  (List.Perm.swap exAs exA [exB]).trans (((List.Perm.swap exB exA []).cons exAs).trans (List.Perm.swap exB exAs [exA]))
 /-- the instance of the theorem for these loads -/
 example (opts : Opts) :
     dumpOutcome (processAll (Registry.loadAll [exA, exAs, exB]).1 opts (plugFull (Registry.loadAll [exA, exAs, exB]).1)) =
       dumpOutcome (processAll (Registry.loadAll [exB, exAs, exA]).1 opts (plugFull (Registry.loadAll [exB, exAs, exA]).1)) :=
-  process_load_order_irrelevant (List.reverse_perm [exB, exAs, exA]).symm (by decide) (by decide) opts
-/-- the processed forest is not trivial (placeholder type layer, which the kernel can evaluate):
-three trees — `a`, its submodule, `b` — and the augmented container has two children -/
-example : (processAll (Registry.loadAll [exB, exAs, exA]).1 {} (plugLite (Registry.loadAll [exB, exAs, exA]).1)).errors = [] ∧
-    (processAll (Registry.loadAll [exB, exAs, exA]).1 {} (plugLite (Registry.loadAll [exB, exAs, exA]).1)).forest.trees.length = 3 := by
+  process_load_order_irrelevant exPerm (by decide) (by decide) opts
+/-- the sequence numbers really are permuted: `a` is module 0 in one order and module 2 in the other -/
+example : ((Registry.loadAll [exA, exAs, exB]).1.getModule "a").map (·.seq) = some 0 ∧
+    ((Registry.loadAll [exB, exAs, exA]).1.getModule "a").map (·.seq) = some 2 := by decide
+/-- processing is not trivial (placeholder type layer, module and submodule only, which the
+kernel can evaluate): no errors, two trees, the submodule's leaf merged into the module -/
+example : (processAll (Registry.loadAll [exAs, exA]).1 {} (plugLite (Registry.loadAll [exAs, exA]).1)).errors = [] ∧
+    (processAll (Registry.loadAll [exAs, exA]).1 {} (plugLite (Registry.loadAll [exAs, exA]).1)).forest.trees.map
+      (fun p => (p.1, p.2.dir.map (·.name))) = [(0, ["z"]), (1, ["z", "c"])] := by
   decide +kernel
 
 /-- Two texts for one module name (no revision): the second load is rejected as a duplicate
@@ -210,6 +218,29 @@ theorem distinct_needed :
     NamesOk [dupA, dupA'] ∧ [dupA, dupA'].Perm [dupA', dupA] ∧ ¬ Distinct [dupA, dupA'] ∧
     dumpOutcome (processAll (Registry.loadAll [dupA, dupA']).1 {} (plugLite (Registry.loadAll [dupA, dupA']).1)) ≠
       dumpOutcome (processAll (Registry.loadAll [dupA', dupA]).1 {} (plugLite (Registry.loadAll [dupA', dupA]).1)) := by
+  refine ⟨by decide, List.Perm.swap _ _ _, by decide, ?_⟩
+  intro h
+  have hl := congrArg String.length h
+  revert hl
+  decide +kernel
+
+/-- A module whose *name* contains `@` (not a YANG identifier; goyang does not check identifiers)
+and a module whose full name `name@revision` is the same string. -/
+def atA : Stmt :=
+  st "x.yang" "module" "m@2020" 1 [st "x.yang" "namespace" "urn:x" 2, st "x.yang" "prefix" "x" 3,
+    st "x.yang" "container" "c" 4]
+def atB : Stmt :=
+  st "m.yang" "module" "m" 1 [st "m.yang" "namespace" "urn:m" 2, st "m.yang" "prefix" "m" 3,
+    st "m.yang" "revision" "2020" 4]
+
+/-- **`NamesOk` cannot be dropped** (the ambiguity C13 excludes the same way): the two modules
+have different headers, but the key `m@2020` is claimed by both; whichever is loaded first keeps
+it — loaded second, `m@2020` is still accepted (it has no revision) but stays unbound, `m` is
+rejected as a duplicate — and the dumps differ. -/
+theorem names_needed :
+    Distinct [atA, atB] ∧ [atA, atB].Perm [atB, atA] ∧ ¬ NamesOk [atA, atB] ∧
+    dumpOutcome (processAll (Registry.loadAll [atA, atB]).1 {} (plugLite (Registry.loadAll [atA, atB]).1)) ≠
+      dumpOutcome (processAll (Registry.loadAll [atB, atA]).1 {} (plugLite (Registry.loadAll [atB, atA]).1)) := by
   refine ⟨by decide, List.Perm.swap _ _ _, by decide, ?_⟩
   intro h
   have hl := congrArg String.length h
